@@ -860,12 +860,13 @@ fn main() {
     // far less deeply than the local server. With two symmetric handles only sequences whose first call uses handle 0 are run.
     let plans: Vec<(&str, usize, Vec<u8>, bool, bool, &[P], Vec<usize>, usize, usize)> = if thorough {
         vec![
-            ("local", 4, vec![1], false, true, &ALL, vec![0, 1, 2], 4000, 30),
+            ("local", 4, vec![1], false, true, &ALL, vec![0, 1, 2], 2000, 30),
             ("local", 3, vec![0, 1, 2], false, true, &ALL, vec![0, 1, 2], 0, 0),
-            ("git-local", 3, vec![1], true, true, &ALL, vec![0, 2], 100, 24),
-            ("git-remote", 3, vec![1], false, false, &FEW, vec![0], 200, 24),
+            ("git-local", 3, vec![1], true, false, &FEW, vec![0], 40, 24),
+            ("git-local", 2, vec![1], true, true, &ALL, vec![0, 2], 0, 0),
+            ("git-remote", 3, vec![1], false, false, &FEW, vec![0], 40, 24),
             ("git-remote", 2, vec![1], true, true, &ALL, vec![0, 2], 0, 0),
-            ("git-remote-late", 2, vec![1], false, false, &ALL, vec![0], 100, 24),
+            ("git-remote-late", 2, vec![1], false, false, &ALL, vec![0], 20, 24),
         ]
     } else {
         vec![
